@@ -15,6 +15,7 @@ import TzVerif.Spec.Rule
 import TzVerif.Proofs.RuleEval
 import TzVerif.Proofs.IanaRules
 import TzVerif.Proofs.SrcEqRule
+import TzVerif.Generated.StableC04   -- per run: the current translation (SrcNow) equals the baseline (Src) these theorems are about
 
 namespace TzVerif.C04
 open TzVerif.Model TzVerif.Proofs
